@@ -10,7 +10,7 @@ from vf.spec import AnyT, ObjectT, Program, Unspecified, canon
 PROP = "C08"
 SHARDS = {"quick": 8, "thorough": 16}
 TIME_CAP = {"quick": 70, "thorough": 900}
-REQUIRED = ["deser_pass_through_json_pairs", "deser_pairs", "deser_no_copy_pairs", "deser_ctor_pairs", "deser_method_vs_function", "deser_pass_through", "alias_walks", "purity_checks", "ser_pairs", "ser_no_copy_pairs", "ser_check_type_pairs", "ser_pass_through_pairs", "ser_alias_walks", "programs"]
+REQUIRED = ["discriminated_purity_checks", "deser_pass_through_json_pairs", "deser_pairs", "deser_no_copy_pairs", "deser_ctor_pairs", "deser_method_vs_function", "deser_pass_through", "alias_walks", "purity_checks", "ser_pairs", "ser_no_copy_pairs", "ser_check_type_pairs", "ser_pass_through_pairs", "ser_alias_walks", "programs"]
 # compiled-tree node classes this workload is expected to reach: reported as coverage gaps when missing, never a verdict
 # (a renamed internal class must not turn into an alarm)
 EXPECTED_NODES = ["node:ListCheckOnlyMethod", "node:ListMethod", "node:MappingCheckOnly", "node:MappingMethod", "node:SimpleObjectMethod", "node:ObjectMethod", "node:FieldsConstructor"]
@@ -48,6 +48,17 @@ def out_sig(o):
     if o.kind == "verr":
         return ("verr", json.dumps(o.errors, sort_keys=True, default=str))
     return ("exc", o.exc)
+
+
+def container_classes(x, depth=0):
+    """classes of the containers of a serialized value, position by position"""
+    if depth > 60:
+        return "<deep>"
+    if isinstance(x, dict):
+        return (type(x).__name__, tuple(sorted(((repr(k), container_classes(v, depth + 1)) for k, v in x.items()))))
+    if isinstance(x, (list, tuple, set, frozenset)):
+        return (type(x).__name__, tuple(container_classes(e, depth + 1) for e in x))
+    return None
 
 
 def out_sig_unordered(o):
@@ -266,6 +277,10 @@ def check_ser(env, prog, values, label):
     rng = env.rng
     t, T = prog.t, prog.T
     sig = t.sig()
+    extra = [c for v in values[:3] for c in harness.sequence_variants(t, v)]
+    if extra:
+        env.count("sequence_class_variants", len(extra))
+        values = list(values) + extra
     aliaser = rng.choice(["identity", "identity", "camel"])
     from vf.spec import ALIASERS
     common = dict(additional_properties=rng.random() < 0.3, exclude_none=rng.random() < 0.3, exclude_defaults=rng.random() < 0.3)
@@ -338,6 +353,9 @@ def check_ser(env, prog, values, label):
             env.count("ser_no_copy_pairs" if "no_copy" in name else "ser_check_type_pairs")
             if norm(r) != n0:
                 env.violation({"kind": "result-depends-on-option", "side": "serialize", "option": name, "variant": r.kind, "exc": r.exc}, {**wit, "variant": r.brief()})
+            elif name == "no_copy" and r.kind == "ok" and container_classes(r.value) != container_classes(r0.value):
+                # same JSON text, but another container class (a tuple / set kept as is with no_copy=True): the results differ
+                env.violation({"kind": "result-depends-on-option", "side": "serialize", "option": name, "difference": "container-class"}, {**wit, "variant": r.brief()})
         if rng.random() < 0.3:
             rf = harness.call(serialize, T, v, **common, no_copy=True)
             if norm(rf) != n0:
@@ -380,6 +398,8 @@ def check_ser(env, prog, values, label):
 
 
 def run(env):
+    from vf import disc
+    disc.run_family(env, disc.check_purity, env.n(96, 3000))  # discriminated-union families first (their own budget)
     harness.tag_errors(False)
     rng = env.rng
     n = env.n(2600, 60000)
